@@ -141,7 +141,7 @@ def c17_9(ctx: Ctx):
               key="CallingConventionDesc::field-order")
 
 
-@rule("C20.10", ["C20", "C09"], "container updates: a refused insertion changes nothing; cache sets are updated in place; a self-retarget keeps the block's references; deleting an Offset keeps the element", 4)
+@rule("C20.10", ["C20", "C09"], "container updates: a refused insertion changes nothing; cache sets are updated in place; a self-retarget keeps the block's references; deleting an Offset keeps the element", 5)
 def c20_10(ctx: Ctx):
     repo = ctx.repo
     # 1. BlockOrdering._primitive_insert validates everything before it links anything
@@ -157,6 +157,11 @@ def c20_10(ctx: Ctx):
               "the 'already ordered' check sits in the loop that links the blocks: when the offending block is not the first of the run, the blocks before it are already linked in when "
               "ValueError is raised - the ordering is changed by a refused call and a retry is refused for them",
               key="_primitive_insert::validate-then-link")
+    dup = any(isinstance(n, ast.Name) and n.id in ("seen", "seen_blocks") for n in ast.walk(pi.node)) or "len(set(" in src(pi.node) or "IdentitySet" in src(pi.node)
+    ctx.check(dup, pi, raises[0].node, "a block that appears twice in one call is refused like one that is already ordered",
+              "the duplicate check compares the new blocks with `self.__order` only: add_detached_blocks([a, a, b]) links two nodes for `a`, the index keeps the second, and the first can never be "
+              "removed (adjacent_blocks(b) keeps answering `a` after remove_block(a))",
+              key="_primitive_insert::in-call-duplicates")
     # 2. ReturnEdgeCache._dict_set_discard mutates the stored set
     dd = repo.func("_modify.cache.ReturnEdgeCache._dict_set_discard")
     t = " ".join(src(dd.node).split())
@@ -514,3 +519,67 @@ def c12_15(ctx: Ctx):
               f"needs_additional_block = `{src(v)[:100] if v else '?'}`: a patch ending in data or in a jump/call/return is handed to insert() with a last block that cannot take the fallthrough "
               "to the rest of the original block (insert() asserts, or the terminator gains a fallthrough)",
               key="_invoke_patch::needs-additional-block")
+
+
+# ----------------------------------------------------------------------------
+# second bug-hunt round (DESIGN 7, F71-...)
+# ----------------------------------------------------------------------------
+
+
+@rule("C05.12", ["C05", "C02", "C01"], "a block that starts inside a removed range ends up at the edit point, never in front of it", 1)
+def c05_12(ctx: Ctx):
+    fi = ctx.repo.func("_modify.edit.edit_byte_interval")
+    loops = [n for n in walk_no_nested(fi.node) if isinstance(n, ast.For) and src(n.iter) == "bi.blocks" and isinstance(n.target, ast.Name)]
+    if len(loops) != 1:
+        raise AnalysisError("edit_byte_interval: block loop not found")
+    b = loops[0].target.id
+    upd = [n for n in ast.walk(loops[0]) if isinstance(n, (ast.Assign, ast.AugAssign)) and src(n.targets[0] if isinstance(n, ast.Assign) else n.target) == f"{b}.offset"]
+    if not upd:
+        raise AnalysisError("edit_byte_interval: block offset update not found")
+    t = " ".join(src(u) for u in upd)
+    tests = " ".join(src(i.test) for i in ast.walk(loops[0]) if isinstance(i, ast.If))
+    ok = ("max(" in t and "offset" in t) or "offset + length" in tests
+    ctx.check(ok, fi, upd[0], "the shift of a block is clamped at the edit point (or only blocks behind the removed range are shifted by the full delta)",
+              f"`{t[:80]}` under `{tests[:80]}`: every block starting at or after `offset` moves by the whole size delta; a block that starts *inside* the removed range (the zero-sized block "
+              "apply() itself creates for an address-valued symbol `mid = d+3`) is moved in front of the edit point - `delete_at(d, 2, 4)` puts it at offset -1 and the IR cannot be saved",
+              key="edit_byte_interval::clamp-blocks-in-removed-range")
+
+
+@rule("C17.10", ["C17"], "x86 integer arguments are formatted as integers (bool is an int); ARM64 refuses what it does not implement", 2)
+def c17_10(ctx: Ctx):
+    repo = ctx.repo
+    fx = repo.func("patches.calls._CallPatchX86.get_asm")
+    lin = linear(fx.node)
+    ints = [g for g in lin.stmts if isinstance(g.node, ast.Assign) and src(g.node.targets[0]) == "arg_str" and lin.under(g, "isinstance(arg_value, int)")]
+    if len(ints) != 1:
+        raise AnalysisError("_CallPatchX86.get_asm: integer argument formatting not found")
+    t = src(ints[0].node.value)
+    ctx.check("int(" in t or ":d}" in t or "%d" in t, fx, ints[0].node, "an int argument is rendered through int()/`:d`",
+              f"`arg_str = {t}`: `True`/`False` pass CallPatch's isinstance(arg, int) check and are pasted as the identifiers `True`/`False` - `mov RDI, True` refers to a symbol named True "
+              "(UndefSymbolError, or a load from it) instead of passing 1; ARM64 emits `mov x0, #1` for the same call",
+              key="_CallPatchX86.get_asm::int-format")
+    fa = repo.func("patches.calls._CallPatchARM64.__init__")
+    la = linear(fa.node)
+    raises = [g for g in la.stmts if isinstance(g.node, ast.Raise) and "ValueError" in src(g.node)]
+    ga = repo.func("patches.calls._CallPatchARM64.get_asm")
+    honoured = "caller_cleanup" in src(ga.node)
+    refused = any("caller_cleanup" in a for g in raises for a in _atoms(g.guard))
+    ctx.check(honoured or refused, fa, fa.node, "ARM64: caller_cleanup=False is honoured by get_asm or refused like shadow_space/stack_alignment",
+              "the constructor rejects shadow_space and a stack alignment other than 16 but never looks at caller_cleanup, and get_asm always emits `add sp, sp, #n` after the call: with a "
+              "callee-cleanup convention sp ends 8/16 bytes above where it started and the epilogue restores registers from the wrong slots",
+              key="_CallPatchARM64::caller_cleanup")
+
+
+@rule("C16.13", ["C16"], "a read-register that is not in the scratch pool is simply not a scratch candidate (no accidental exception)", 1)
+def c16_13(ctx: Ctx):
+    fi = ctx.repo.func("abi.ABI._allocate_patch_registers")
+    lin = linear(fi.node)
+    rm = [g for g, c in lin.all_calls() if src(c) == "available_scratch_registers.remove(reg)"]
+    if len(rm) != 2:
+        raise AnalysisError("_allocate_patch_registers: the two removals not found")
+    for g in rm:
+        which = "reads_registers" if "reads_registers" in src(g.loops[-1].iter) else "clobbers_registers"
+        ctx.check(la_under := lin.under(g, "reg in available_scratch_registers"), fi, g.node, f"{which}: removal from the pool only when the register is in it",
+                  f"`available_scratch_registers.remove(reg)` for {which} is unguarded: Constraints(reads_registers={{'x30'}}) on ARM64 (or a register that is both read and clobbered, on any ABI) "
+                  "raises `ValueError: list.remove(x): x not in list` and no prologue is produced",
+                  key=f"_allocate_patch_registers::guarded-remove::{which}")
